@@ -15,10 +15,14 @@
      region ols l0 c0 l1 c1  the text between two positions: a slice of one line, or tail of line l0, the lines between, head of line l1
      part_on T tx t     the characters of line T (content tx) lying inside the span of token t
      covers toks t i j  tree t matched exactly the tokens i .. j-1 of the (non-skipped) token list, all its spans being
-                        leaf: the token's span; inner node: start(token i) .. end(token j-1); empty node: start(token i) twice *)
+                        leaf: the token's span; inner node: start(token i) .. end(token j-1); empty node: start(token i) twice
+     clone t            TElement.clone (positions passed on explicitly)
+     flatten_seq seqs t the in-parse flattening of ProdSequence elements (values re-arranged, positions untouched)
+     preorder t         TElement.find_all(exclude_root=False): the elements depth first
+     surviving t ks     the elements of the cleaned tree = elements ks of the raw tree (cleanup works in place) *)
 From Coq Require Import ZArith List Bool.
 From AK Require Import Common.Err LLP.Base LLP.Parse LLP.Build gen.C04_Consts
-  C04.Model C04.LemmasText C04.LemmasLex C04.LemmasCover C04.LemmasTree C04.LemmasConc C04.LemmasNode.
+  C04.Model C04.LemmasText C04.LemmasLex C04.LemmasCover C04.LemmasTree C04.LemmasConc C04.LemmasNode C04.LemmasOps C04.Run.
 Import ListNotations.
 Open Scope Z_scope.
 
@@ -210,6 +214,46 @@ Theorem node_text : forall matcher span_of syn kw, matcher_ok matcher -> spans_o
 Proof. exact node_text_l. Qed.
 Print Assumptions node_text.
 
+(* ------------------------------------------------------------------ trees obtained through the tree API *)
+(* clone() copies name, value and both positions of every element: the copy is the same tree *)
+Theorem clone_exact : forall t, clone t = t.
+Proof. exact clone_id_l. Qed.
+Print Assumptions clone_exact.
+
+(* flattening the elements of a ProdSequence keeps every span exact: the sequence element covers
+   exactly the tokens of its items *)
+Theorem flatten_spans : forall toks seqs t i j, covers toks t i j -> covers toks (flatten_seq seqs t) i j.
+Proof. exact flatten_covers_l. Qed.
+Print Assumptions flatten_spans.
+
+(* every element that find_all lists, and every element that survives the cleanup, is a node of the tree ... *)
+Theorem listed_is_subtree : forall t s, In s (preorder t) -> subtree s t.
+Proof. exact preorder_subtree. Qed.
+Print Assumptions listed_is_subtree.
+
+Theorem surviving_is_subtree : forall t ks s, In (Some s) (surviving t ks) -> subtree s t.
+Proof. exact surviving_subtree. Qed.
+Print Assumptions surviving_is_subtree.
+
+(* ... hence the span of every element of the clone of the (flattened) parse result, of every element listed by
+   find_all on it and of every element left by the cleanup delimits exactly its tokens, and get_orig_text
+   returns the region between its two positions *)
+Theorem api_node_exact : forall matcher span_of syn kw, matcher_ok matcher -> spans_ok span_of ->
+  forall ls ols all skip seqs t i j, ls <> [] -> Forall2 prefix_of ls ols ->
+  tokenize matcher span_of syn kw ls = LOk all ->
+  covers (drop_skipped skip all) t i j ->
+  forall s, subtree s (clone (flatten_seq seqs t)) ->
+  (exists i' j', covers (drop_skipped skip all) s i' j' /\ (i <= i')%nat /\ (j' <= j)%nat) /\
+  exists l0 c0 l1 c1, tree_span s = (P l0 c0, P l1 c1) /\
+    get_orig_text ols (tree_span s) = Ok (region ols l0 c0 l1 c1).
+Proof.
+  intros matcher span_of syn kw Hm Hs ls ols all skip seqs t i j NE F T C s S.
+  rewrite clone_id_l in S. apply (flatten_covers_l _ seqs) in C.
+  destruct (covers_subtree _ _ _ S _ _ C) as [i' [j' [C' [A B]]]].
+  split; [eauto|]. eapply node_text_l; eauto.
+Qed.
+Print Assumptions api_node_exact.
+
 (* ------------------------------------------------------------------ the harness lexicon *)
 (* the concrete matcher compared with re on every run meets the hypotheses, for every lexicon
    whose literals are non-empty and every span table *)
@@ -303,3 +347,51 @@ Print Assumptions witness_suffix_symbols.
 Example witness_lex_error : cfg_tokenize demo_cfg (tok_lines (IStr [97;10;98;32;64])) = LErr (2, 2) [98;32;64] false.
 Proof. vm_compute. reflexivity. Qed.
 Print Assumptions witness_lex_error.
+
+(* the clone of the tree of witness_trailing_empty_child (the seeded change C04-m4 re-derived the span of a cloned
+   inner node from its children): A still ends at its last token *)
+Example witness_clone_trailing_empty_child :
+  let W := [87;79;82;68] in let N := [78;85;77] in
+  let ug := [([69], [[[65]; N]]); ([65], [[W; [66]]]); ([66], [[W]; []])] in
+  let inp := IStr [97;98;32;32;32;49;50] in
+  match build ug (cfg_terminals demo_cfg) true [69], cfg_tokenize demo_cfg (tok_lines inp) with
+  | Ok p, LOk toks =>
+      match p_parse p 10 (drop_skipped [[83;80;65;67;69]; [67;79;77;77;69;78;84]] toks) with
+      | Ok t =>
+          match clone t, surviving t [1%nat; 3%nat] with
+          | Node _ [Node _ [_; Node _ [] spB] spA; _] spE, [Some a; Some b] =>
+              spA = ((1, 1), (1, 3)) /\ spB = ((1, 6), (1, 6)) /\ spE = ((1, 1), (1, 8)) /\
+              tree_span a = spA /\ tree_span b = spB /\
+              get_orig_text (orig_lines inp) spA = Ok [97;98]
+          | _, _ => False
+          end
+      | _ => False
+      end
+  | _, _ => False
+  end.
+Proof. vm_compute. repeat split. Qed.
+Print Assumptions witness_clone_trailing_empty_child.
+
+(* a ProdSequence  S = ProdSequence(WORD, NUM), i.e.  S -> (S__E, S) | (),  S__E -> (WORD,) | (NUM,),  under
+   E -> (S, B), B -> (DQ,) | ():  "ab 12  " -- the flattened S holds the two items and spans "ab 12" exactly,
+   the empty B sits at $END$ *)
+Example witness_sequence :
+  let W := [87;79;82;68] in let N := [78;85;77] in
+  let S := [83] in let SE := [83;95;95;69] in
+  let ug := [([69], [[S; [66]]]); (S, [[SE; S]; []]); (SE, [[W]; [N]]); ([66], [[[68;81]]; []])] in
+  let inp := IStr [97;98;32;49;50;32;32] in
+  match build_t ug [S; SE] (cfg_terminals demo_cfg) true [69], cfg_tokenize demo_cfg (tok_lines inp) with
+  | Ok p, LOk toks =>
+      match p_parse p 10 (drop_skipped [[83;80;65;67;69]; [67;79;77;77;69;78;84]] toks) with
+      | Ok t =>
+          match flatten_seq [S] t with
+          | Node _ [Node _ [Leaf _ _ sp1; Leaf _ _ sp2] spS; Node _ [] spB] _ =>
+              sp1 = ((1, 1), (1, 3)) /\ sp2 = ((1, 4), (1, 6)) /\ spS = ((1, 1), (1, 6)) /\ spB = ((1, 6), (1, 6))
+          | _ => False
+          end
+      | _ => False
+      end
+  | _, _ => False
+  end.
+Proof. vm_compute. repeat split. Qed.
+Print Assumptions witness_sequence.
